@@ -18,7 +18,7 @@ CHECKS = {
             "DESIGN.md section 5 C02"),
     "C03": ("E1-choice", "exploration",
             "exhaustive enumeration of all class layouts up to a length bound x full small parameter grids, compared with per-wrapper specifications",
-            "All class layouts of length 0..5 (quick) / 0..7 (thorough) over 3 declared classes x every parameter combination of the ten subset-family wrappers (percent alphabet incl. 0, 1 and non-integer boundaries, all index bounds, seeds, repetition counts, shots): selected ids are compared with exact specs where documented and relational specs (contiguous, monotone, complementary ranges partition) where rounding is not; seeded selections are rebuilt under a different global RNG state; constructors run under a deterministic line-event horizon (termination).",
+            "All class layouts of length 0..5 (quick) / 0..7 (thorough) over 3 declared classes x every parameter combination of the ten subset-family wrappers (percent alphabet incl. 0, 1 and non-integer boundaries, all index bounds, seeds, repetition counts, shots): selected ids are compared with exact specs where documented and relational specs (contiguous, monotone, complementary ranges partition) where rounding is not; seeded selections are rebuilt under a different global RNG state; constructors run under a CPU-time horizon of the process (termination).",
             "Trusted: the per-wrapper specs in kdverif/props/c03.py. Explicit AssertionError/NotImplementedError/ValueError rejections are accepted; empty datasets are excluded for OversamplingWrapper.",
             "DESIGN.md section 5 C03"),
     "C04": ("E3-lockstep", "model_checking",
